@@ -314,6 +314,8 @@ class World:
             return ref["c"]
         if "n" in ref:
             return dec_arr(ref["n"])
+        if "l" in ref:
+            return dec_arr(ref["l"]).tolist()  # a (nested) Python list
         raise KeyError(ref)
 
     def shadow(self, ref):
@@ -327,6 +329,8 @@ class World:
             return np.asarray(ref["c"])
         if "n" in ref:
             return dec_arr(ref["n"])
+        if "l" in ref:
+            return dec_arr(ref["l"])
         raise KeyError(ref)
 
     def nid_of(self, ref):
